@@ -34,7 +34,7 @@ def pool_of(loc):
 
 
 class Unit:
-    def __init__(self, func, world, label, events, path, kind, effects, facts_in):
+    def __init__(self, func, world, label, events, path, kind, effects, facts_in, facts_out=None):
         self.func = func
         self.world = world
         self.label = label
@@ -43,6 +43,7 @@ class Unit:
         self.kind = kind          # entry / steady / call
         self.effects = effects    # [(event, [Effect])] path-sensitive
         self.facts_in = facts_in
+        self.facts_out = facts_out or {}
 
     def all_effects(self):
         return [ef for _, efs in self.effects for ef in efs]
@@ -236,7 +237,7 @@ def units(repo, depth=2):
                     if skip_entry_segment and i == 0:
                         continue
                     out.append(Unit(f, world, '%s%s entry path, segment %d' % (f.qual, wl, i),
-                                    [e for e, _ in seg], p, 'entry' if i == 0 else 'later', seg, {}))
+                                    [e for e, _ in seg], p, 'entry' if i == 0 else 'later', seg, {}, endf))
         # ---- steady state from each top-level while loop --------------------
         if f.is_generator:
             loops = [n for n in walk_no_nested(f.node) if isinstance(n, ast.While)]
@@ -257,14 +258,14 @@ def units(repo, depth=2):
                             for i, (e, _) in enumerate(pairs):
                                 if e.kind == 'back' and e.node is lp:
                                     new_inv = {k: v for k, v in new_inv.items() if snap[i].get(k) == v}
-                            produced.append((p, pairs))
+                            produced.append((p, pairs, endf))
                     if new_inv == inv:
                         break
                     inv = new_inv
-                for p, pairs in produced:
+                for p, pairs, endf in produced:
                     for i, seg in enumerate(_split(pairs)):
                         out.append(Unit(f, world, '%s%s steady-state iteration, segment %d' % (f.qual, wl, i),
-                                        [e for e, _ in seg], p, 'steady', seg, dict(inv)))
+                                        [e for e, _ in seg], p, 'steady', seg, dict(inv), endf))
     _UNITS_CACHE[key] = out
     return out
 
